@@ -381,6 +381,18 @@ func init() {
 				}
 				return
 			}
+			var rl struct {
+				R      bool `json:"registration_during_last_report"`
+				ByPass bool `json:"by_pass"`
+				Omit   bool `json:"omit_cardinality"`
+			}
+			if json.Unmarshal(ctx.Replay, &rl) == nil && rl.R {
+				ctx.Case(rl, "", "registration-overlapping-the-last-report", "")
+				if f := c01RegDuringLastReport(rl.ByPass, rl.Omit); f != "" {
+					ctx.Fail("one_object_per_identity_allocate_once_all_delivered", f, rl, nil)
+				}
+				return
+			}
 			var cp struct {
 				P      bool `json:"child_close_during_root_purge"`
 				Rounds int  `json:"rounds"`
@@ -515,6 +527,16 @@ func init() {
 			}
 			ctx.Res.Evaluations += rounds
 			ctx.Res.Histogram["uncontrolled-first-use-rounds"] += rounds
+		}
+		// a first use in flight (inside the reporter's Allocate, holding the scope's lock) while the scope's
+		// LAST report runs - by a pass or by asking for the closed scope again: "everything recorded
+		// through the handles is delivered" (stream of C01)
+		for k := 0; k < 4; k++ {
+			cs := map[string]interface{}{"registration_during_last_report": true, "by_pass": k%2 == 0, "omit_cardinality": k < 2}
+			ctx.Case(cs, "", "registration-overlapping-the-last-report", "")
+			if f := c01RegDuringLastReport(k%2 == 0, k < 2); f != "" {
+				ctx.Fail("one_object_per_identity_allocate_once_all_delivered", f, cs, nil)
+			}
 		}
 		// child scopes closed by several goroutines while the root's Close drops them
 		{
